@@ -70,6 +70,8 @@ def monitor_c07(scn, impl):
     sess = scn["sessions"]
     if len({s["st"] for s in sess}) != len(sess):
         return None                                   # two sessions on one station: outside the property
+    if impl.get("info_diff"):
+        return impl["info_diff"]
     if impl.get("data_mutated"):
         return "the call modified the interface data owned by the caller (sessions / infrastructure lists)"
     if impl.get("held_changed"):
@@ -131,6 +133,30 @@ def monitor_c07(scn, impl):
                 floor = max(user_min0(s), inf["minp"][i] if scn["unint"] else 0.0)
                 if p > max(b, floor) * (1 + SLACK) + SLACK:
                     return "pilot %r exceeds the estimator bound %r of session %d (minimum pilot %r)" % (p, b, s["sid"], floor)
+    if scn["algo"] == "greedy" and impl.get("pre") and impl.get("order") and T == 1:
+        # a session with its OWN minimum rate above what is still missing: the algorithm must hand out the upper bound
+        # min(max_rate, remaining amp-periods) whenever that is feasible at its turn, not the minimum rate
+        pre = {p_[0]: p_ for p_ in impl["pre"]}
+        by_sid = {s_["sid"]: s_ for s_ in sess}
+        if sorted(impl["order"]) == sorted(pre):
+            cur = [0.0] * inf["N"]
+            for sid in impl["order"]:
+                cur[by_sid[sid]["st"]] = max(0.0, pre[sid][1][0])
+            for sid in impl["order"]:
+                s_ = by_sid[sid]
+                i = s_["st"]
+                rap = (s_["req"] - s_["deliv"]) * 1000 / inf["volt"][i] * 60 / scn["period"]
+                ub = min(pre[sid][2][0], rap)
+                lb = max(0.0, pre[sid][1][0])
+                p = rows[i][0]
+                if inf["cont"][i] and ub < lb - 1e-9 and p > ub + 1e-9:
+                    test = list(cur)
+                    test[i] = ub
+                    e_, _ = exact_margin(inf, test)
+                    if e_ < -1e-6:
+                        return ("session %d (own minimum rate %r) gets %r A although only %r A*periods are missing and "
+                                "%r A is feasible at its turn" % (sid, lb, p, rap, ub))
+                cur[i] = p
     for i, s in act.items():
         # the WHOLE emitted schedule of a station, summed over its periods, against the remaining demand in A*periods
         rap = (s["req"] - s["deliv"]) * 1000 / inf["volt"][i] * 60 / scn["period"]
@@ -454,16 +480,26 @@ def make_sim_algo(sim):
         if op is not None:          # the network is modified between two periods of the same run
             from acnportal.acnsim import Current
             names = list(net.constraint_index)
+            tc = ctx["truth"]["cons"]
+            tn = ctx["truth"]["cnames"]
             if op[0] == "update" and names:
                 nm = names[op[1] % len(names)]
-                j = net.constraint_index.index(nm)
-                row = {sid: float(net.constraint_matrix[j][k]) for k, sid in enumerate(net.station_ids)}
-                net.update_constraint(nm, Current(row), float(round(net.magnitudes[j] * op[2], 2)))
+                j = tn.index(nm)
+                row = dict(tc[j][0])
+                newlim = float(round(tc[j][1] * op[2], 2))
+                net.update_constraint(nm, Current(row), newlim)
+                tc[j] = (row, newlim)
             elif op[0] == "remove" and len(names) > 1:
-                net.remove_constraint(names[op[1] % len(names)])
+                nm = names[op[1] % len(names)]
+                net.remove_constraint(nm)
+                j = tn.index(nm)
+                del tc[j]
+                del tn[j]
             elif op[0] == "add":
-                net.add_constraint(Current({sid: op[1][k % len(op[1])] for k, sid in enumerate(net.station_ids)}), op[2],
-                                   name="added%d" % t)
+                row = {sid: float(op[1][k % len(op[1])]) for k, sid in enumerate(net.station_ids)}
+                net.add_constraint(Current(row), op[2], name="added%d" % t)
+                tc.append((row, float(op[2])))
+                tn.append("added%d" % t)
         stop = plan.get("stop_at") == t and not ctx.get("stopped")
         if stop and plan.get("stop_before", True):
             ctx["stopped"] = True
@@ -474,12 +510,28 @@ def make_sim_algo(sim):
             N = len(info.station_ids)
             idx = {n: k for k, n in enumerate(info.station_ids)}
             etype = ["C0" if s["kind"] == "C0" else "F" for s in sim_["stations"]]
-            infra = dict(N=N, A=[[float(x) for x in row] for row in np.asarray(info.constraint_matrix)],
-                         L=[float(x) for x in info.constraint_limits], phases=[float(x) for x in info.phases],
-                         volt=[float(x) for x in info.voltages], maxp=[float(x) for x in info.max_pilot],
-                         minp=[float(x) for x in info.min_pilot],
-                         allow=[[float(x) for x in a] for a in info.allowable_pilots],
-                         cont=[bool(x) for x in info.is_continuous], etype=etype, names=list(info.station_ids))
+            # GROUND TRUTH of the infrastructure: taken from the EVSE objects of the network and from the constraints the
+            # harness itself added / edited -- not from what the Interface hands to the algorithm, which is compared with it
+            names_ = list(net.station_ids)
+            allow_t, maxp_t, minp_t, cont_t = [], [], [], []
+            for nm in names_:
+                ev_ = net._EVSEs[nm]
+                allow_t.append([float(x) for x in ev_.allowable_pilot_signals])
+                maxp_t.append(float(ev_.max_rate)); minp_t.append(float(ev_.min_rate)); cont_t.append(bool(ev_.is_continuous))
+            truth = ctx["truth"]
+            infra = dict(N=N, A=[[float(row.get(nm, 0.0)) for nm in names_] for row, _ in truth["cons"]],
+                         L=[float(l) for _, l in truth["cons"]],
+                         phases=[float(x) for x in truth["phases"]], volt=[float(x) for x in truth["volt"]],
+                         maxp=maxp_t, minp=minp_t, allow=allow_t, cont=cont_t, etype=etype, names=names_)
+            seen = dict(A=[[float(x) for x in row] for row in np.asarray(info.constraint_matrix)],
+                        L=[float(x) for x in info.constraint_limits], phases=[float(x) for x in info.phases],
+                        volt=[float(x) for x in info.voltages], maxp=[float(x) for x in info.max_pilot],
+                        minp=[float(x) for x in info.min_pilot],
+                        allow=[[float(x) for x in a] for a in info.allowable_pilots],
+                        cont=[bool(x) for x in info.is_continuous])
+            diff = [k_ for k_ in seen if seen[k_] != infra[k_] and not (k_ in ("A", "L") and sorted(map(repr, zip(seen["A"], seen["L"]))) == sorted(map(repr, zip(infra["A"], infra["L"]))))]
+            ctx["info_diff"] = ("Interface.infrastructure_info() reports %s = %r in period %d, the network has %r"
+                                % (diff[0], seen[diff[0]], t, infra[diff[0]])) if diff else None
             sess = [dict(st=idx[s.station_id], sid=sc.sid_of(s.session_id), req=float(s.requested_energy),
                          deliv=float(s.energy_delivered), arr=int(s.arrival), dep=int(s.departure),
                          edep=int(s.estimated_departure), mins=[float(x) for x in s.min_rates],
@@ -513,8 +565,9 @@ def make_sim_algo(sim):
             err = type(ex).__name__
             raise
         finally:
-            rec = obs.end(out, err, list(algo.interface.infrastructure_info().station_ids))
+            rec = obs.end(out, err, list(algo.interface._simulator.network.station_ids))
             if snap is not None:
+                rec["info_diff"] = ctx.get("info_diff")
                 ctx["calls"].append((snap, rec))
     algo.schedule = schedule
     return (algo, est, obs, ctx)
@@ -555,7 +608,10 @@ def run_sim(sim, capture=True, reuse=None, plan=None):
     handle = reuse if reuse is not None else make_sim_algo(sim)
     algo, est, obs, ctx = handle
     calls = []
-    ctx.update(sim=sim, capture=capture, calls=calls, plan=plan, stopped=False)
+    truth = dict(cons=[({names[int(i)]: float(v) for i, v in c["row"].items()}, float(c["limit"])) for c in sim["cons"]],
+                 cnames=["c%d" % j for j in range(len(sim["cons"]))],
+                 phases=[float(st["phase"]) for st in sim["stations"]], volt=[float(st["volt"]) for st in sim["stations"]])
+    ctx.update(sim=sim, capture=capture, calls=calls, plan=plan, stopped=False, truth=truth)
     sim_obj = Simulator(net, algo, queue, datetime.datetime(2020, 1, 1), period=num(sim["period"]), verbose=False)
     exc = None
     resumed = False
@@ -576,7 +632,7 @@ def run_sim(sim, capture=True, reuse=None, plan=None):
                     if plan.get("fresh"):
                         handle = make_sim_algo(sim)
                         algo, est, obs, ctx = handle
-                        ctx.update(sim=sim, capture=capture, calls=calls, plan=plan, stopped=True)
+                        ctx.update(sim=sim, capture=capture, calls=calls, plan=plan, stopped=True, truth=truth)
                     if plan.get("json") or plan.get("fresh"):
                         sim_obj.update_scheduler(algo)
                     if plan.get("between") is not None:
@@ -686,6 +742,9 @@ def sim_violation(res):
             return "session %s received %r kWh, more than the %r kWh requested" % (sid, d, r)
     if res.get("idle"):
         return res["idle"]
+    for _, rec in res.get("calls", []):
+        if rec.get("info_diff"):
+            return rec["info_diff"]
     return None
 
 
@@ -777,7 +836,7 @@ def replay_sim(sim, plan=None):
         c["row"] = {int(k): v for k, v in c["row"].items()}
     if plan and plan.get("mutate"):
         plan = dict(plan, mutate={int(k): tuple(v) for k, v in plan["mutate"].items()})
-    return sim_violation(run_sim(sim, capture=False, plan=plan))
+    return sim_violation(run_sim(sim, capture=True, plan=plan))
 
 
 # =============================================================================================
